@@ -53,7 +53,9 @@ def bool_l1(ints: Sequence[str]) -> List[str]:
             "any(10 // y > i for i in xs)",
             # displays: values with an unusual ``==``; starred elements; unpacked mappings
             "len([W, x]) > x", "len((V, y)) < y", "func(len((W, V)), k=x) > 5", "len([*xs, x]) > 3", "sum((*xs, y)) > 0",
-            "len({*xs, x}) > 2", "len({**{'k': x}, 'j': y}) > y", "{**{'k': x}}['k'] > 0", "[*xs, x] == [1]", "(W, x) == (1, 2)"]
+            "len({*xs, x}) > 2", "len({**{'k': x}, 'j': y}) > y", "{**{'k': x}}['k'] > 0", "[*xs, x] == [1]", "(W, x) == (1, 2)",
+            # a global variable named like a built-in
+            "x < hash", "hash - y > 0 and x > 0"]
     return out
 
 
@@ -247,6 +249,8 @@ from vfw.exprsupport import REC, Obj, func, kwsum, kwkeys, AnyEq, NoTruthEq
 G = 7
 W = AnyEq()
 V = NoTruthEq()
+# a module-level variable that shadows a built-in name
+hash = 9
 # module-level names that collide with parameters of the conditions (the arguments must win)
 y = 77
 xs = [42, 42, 42]
